@@ -6,6 +6,10 @@
 (* enumeration key kx, the number 5, the label lab):                       *)
 (*   r  r2  [r]  [r+n]  [n]  [[n]]  r+n  key  num  lab  {n}                *)
 (*   r++  @r  (decorated register)                                         *)
+(*   a statement may also have NO operand text at all (the empty tuple): an *)
+(*   explicitly listed combination consisting of the "empty" operand       *)
+(*   accepts exactly that (the documented "pop" form); the empty operand   *)
+(*   consumes no text and is not available in operand sets                 *)
 (*   hexa ($a, a hexadecimal number) chra ('a', a character) - a register  *)
 (*   named a is declared: these are numbers, not register references       *)
 (* An ALTERNATIVE is [id, ty, off, curly]: its identifier (which becomes   *)
@@ -81,14 +85,16 @@ InsertIdx(ord, set, i) ==      \* stable insertion of index i into ord by rank
 TryOrder(set) == FoldLeft(LAMBDA ord, i : InsertIdx(ord, set, i), <<>>, [i \in 1..Len(set) |-> i])
 
 \* result of one variant: <<>> if it does not accept, else the sequence of chosen alternative ids
-SpecificMatch(lst, ts) == Len(lst) = Len(ts) /\ \A k \in 1..Len(ts) : Acc(lst[k], ts[k])
+NonEmpty(lst) == SelectSeq(lst, LAMBDA a : a.ty # "empty")
+SpecificMatch(lst, ts) == LET ne == NonEmpty(lst) IN Len(ne) = Len(ts) /\ \A k \in 1..Len(ts) : Acc(ne[k], ts[k])
+IdsOf(lst) == [k \in 1..Len(lst) |-> lst[k].id]
 RECURSIVE FirstSpecific(_, _, _)
 FirstSpecific(specs, ts, j) ==
     IF j > Len(specs) THEN 0 ELSE IF SpecificMatch(specs[j], ts) THEN j ELSE FirstSpecific(specs, ts, j + 1)
 
 VariantResult(v, ts) ==
     LET j == FirstSpecific(v.spec, ts, 1) IN
-    IF j # 0 THEN [ok |-> TRUE, ids |-> [k \in 1..Len(ts) |-> v.spec[j][k].id]]
+    IF j # 0 THEN [ok |-> TRUE, ids |-> IdsOf(v.spec[j])]
     ELSE IF v.sets = <<>> \/ Len(v.sets) # Len(ts) THEN [ok |-> FALSE, ids |-> <<>>]
     ELSE LET pick == [k \in 1..Len(ts) |-> LoopSet(TryOrder(v.sets[k]), v.sets[k], ts[k])] IN
          IF \E k \in 1..Len(ts) : pick[k] = 0 THEN [ok |-> FALSE, ids |-> <<>>]
@@ -113,7 +119,7 @@ SelectDecl(vs, ts) ==
     ELSE LET i == CHOOSE x \in acc : \A y \in acc : x <= y
              v == vs[i]
              sp == {j \in 1..Len(v.spec) : SpecificMatch(v.spec[j], ts)}
-         IN  IF sp # {} THEN [ok |-> TRUE, v |-> i, ids |-> [k \in 1..Len(ts) |-> v.spec[CHOOSE j \in sp : \A j2 \in sp : j <= j2][k].id]]
+         IN  IF sp # {} THEN [ok |-> TRUE, v |-> i, ids |-> IdsOf(v.spec[CHOOSE j \in sp : \A j2 \in sp : j <= j2])]
              ELSE [ok |-> TRUE, v |-> i, ids |-> [k \in 1..Len(ts) |-> v.sets[k][BestIn(v.sets[k], ts[k])].id]]
 
 Init == isa = <<>> /\ texts \in TextTuples
